@@ -8,5 +8,6 @@ CONSTANT GasPrices = {0, 1}
 VIEW View
 INVARIANT PhaseOk
 INVARIANT ExecutedOnce
+INVARIANT ProcessedRecorded
 INVARIANT DupRejected
 CHECK_DEADLOCK FALSE
